@@ -90,6 +90,9 @@ pub enum I2 {
     #[token(b"k\xdf", ignore(case))] KHigh,
     #[token(b"ab", ignore(case))] Ab,
     #[regex(b"[x-z]\xe9", ignore(case))] XyzHigh,
+    // a control byte directly followed by hex-digit characters (the literal is escaped into a regex: \x09 must stay two digits)
+    #[token(b"\tdE", ignore(case))] TabDe,
+    #[token(b"\x00f", ignore(case))] NulF,
 }
 pub static I2_DEF: Def = Def {
     name: "I2", utf8: false, decide: no_callbacks, log_callbacks: false, default_err: plain_default,
@@ -97,6 +100,8 @@ pub static I2_DEF: Def = Def {
         Pat { p: P::Cat(&[P::Class(&[(b'k', b'k'), (b'K', b'K')]), P::Lit(b"\xdf")]), prio: 4, act: Act::Tok(1) },
         Pat { p: P::Cat(&[P::Class(&[(b'a', b'a'), (b'A', b'A')]), P::Class(&[(b'b', b'b'), (b'B', b'B')])]), prio: 4, act: Act::Tok(2) },
         Pat { p: P::Cat(&[P::Class(&[(b'x', b'z'), (b'X', b'Z')]), P::Lit(b"\xe9")]), prio: 4, act: Act::Tok(3) },
+        Pat { p: P::Cat(&[P::Lit(b"\t"), P::Class(&[(b'd', b'd'), (b'D', b'D')]), P::Class(&[(b'e', b'e'), (b'E', b'E')])]), prio: 6, act: Act::Tok(4) },
+        Pat { p: P::Cat(&[P::Lit(b"\x00"), P::Class(&[(b'f', b'f'), (b'F', b'F')])]), prio: 4, act: Act::Tok(5) },
     ],
 };
-corpus_impl!(I2, bytes, I2_DEF, |t| match t { I2::KHigh => 1, I2::Ab => 2, I2::XyzHigh => 3 }, |_e| 0, |_x| (0, true, 0, 0));
+corpus_impl!(I2, bytes, I2_DEF, |t| match t { I2::KHigh => 1, I2::Ab => 2, I2::XyzHigh => 3, I2::TabDe => 4, I2::NulF => 5 }, |_e| 0, |_x| (0, true, 0, 0));
